@@ -180,44 +180,49 @@ func checkComplete(w world.World) error {
 	for _, sel := range exp.Selections {
 		rpa, _ := sourceaddrs.ParseRegistryPackage(sel.Pkg)
 		v, _ := versions.ParseVersion(sel.Version)
-		got, ok := b.RegistryPackageSourceAddr(rpa, v.Comparable())
-		if !ok {
-			got, ok = b.RegistryPackageSourceAddr(rpa, v)
-		}
-		if !ok {
-			return fmt.Errorf("RegistryPackageSourceAddr(%s, %s) is missing", sel.Pkg, sel.Version)
-		}
-		if got.String() != sel.Real {
-			return fmt.Errorf("RegistryPackageSourceAddr(%s, %s) = %s, the registry supplied %s", sel.Pkg, sel.Version, got, sel.Real)
-		}
-		// the registry's deprecation note for exactly that version
-		if rp := regOf(w, sel.Pkg); rp != nil {
-			for _, rv := range rp.Versions {
-				if rv.V != sel.Version {
-					continue
-				}
-				dep := b.RegistryPackageVersionDeprecation(rpa, v)
-				if dep == nil {
-					dep = b.RegistryPackageVersionDeprecation(rpa, v.Comparable())
-				}
-				switch {
-				case rv.Deprecation == nil && dep != nil:
-					return fmt.Errorf("%s %s: the bundle holds the deprecation note %q, the registry attached none", sel.Pkg, sel.Version, dep.Reason)
-				case rv.Deprecation != nil && dep == nil:
-					return fmt.Errorf("%s %s: the registry's deprecation note %q is not retrievable from the bundle", sel.Pkg, sel.Version, rv.Deprecation.Reason)
-				case rv.Deprecation != nil && (dep.Reason != rv.Deprecation.Reason || dep.Link != rv.Deprecation.Link):
-					return fmt.Errorf("%s %s: deprecation note (%q, %q) retrieved, the registry supplied (%q, %q)", sel.Pkg, sel.Version, dep.Reason, dep.Link, rv.Deprecation.Reason, rv.Deprecation.Link)
-				}
-			}
+		// The reference names one newest allowed version; offered versions that differ
+		// from it in build metadata only have the same precedence and are equally good
+		// selections. One of them has to be in the bundle - with exactly the source
+		// address and deprecation note the registry attached to THAT version.
+		rp := regOf(w, sel.Pkg)
+		if rp == nil {
+			return fmt.Errorf("harness: no registry package %s", sel.Pkg)
 		}
 		found := false
-		for _, bv := range b.RegistryPackageVersions(rpa) {
-			if bv.Same(v) {
-				found = true
+		for _, rv := range rp.Versions {
+			cv, err := versions.ParseVersion(rv.V)
+			if err != nil || !cv.Same(v) {
+				continue
+			}
+			got, ok := b.RegistryPackageSourceAddr(rpa, cv)
+			if !ok {
+				continue
+			}
+			found = true
+			if want, _ := sourceaddrs.ParseRemoteSource(rv.Real); got != want {
+				return fmt.Errorf("RegistryPackageSourceAddr(%s, %s) = %s, the registry supplied %s", sel.Pkg, rv.V, got, rv.Real)
+			}
+			dep := b.RegistryPackageVersionDeprecation(rpa, cv)
+			switch {
+			case rv.Deprecation == nil && dep != nil:
+				return fmt.Errorf("%s %s: the bundle holds the deprecation note %q, the registry attached none", sel.Pkg, rv.V, dep.Reason)
+			case rv.Deprecation != nil && dep == nil:
+				return fmt.Errorf("%s %s: the registry's deprecation note %q is not retrievable from the bundle", sel.Pkg, rv.V, rv.Deprecation.Reason)
+			case rv.Deprecation != nil && (dep.Reason != rv.Deprecation.Reason || dep.Link != rv.Deprecation.Link):
+				return fmt.Errorf("%s %s: deprecation note (%q, %q) retrieved, the registry supplied (%q, %q)", sel.Pkg, rv.V, dep.Reason, dep.Link, rv.Deprecation.Reason, rv.Deprecation.Link)
+			}
+			listed := false
+			for _, bv := range b.RegistryPackageVersions(rpa) {
+				if bv == cv {
+					listed = true
+				}
+			}
+			if !listed {
+				return fmt.Errorf("RegistryPackageVersions(%s) = %v lacks %s although its source address is recorded", sel.Pkg, b.RegistryPackageVersions(rpa), rv.V)
 			}
 		}
 		if !found {
-			return fmt.Errorf("RegistryPackageVersions(%s) = %v lacks the selected %s", sel.Pkg, b.RegistryPackageVersions(rpa), sel.Version)
+			return fmt.Errorf("RegistryPackageSourceAddr(%s, %s) is missing (the bundle has %v)", sel.Pkg, sel.Version, b.RegistryPackageVersions(rpa))
 		}
 	}
 	return nil
